@@ -10,6 +10,7 @@ package tagserver_test
 // disk, the backend and the task table are dumped.
 
 import (
+	"encoding/json"
 	"bytes"
 	"context"
 	"errors"
@@ -36,6 +37,7 @@ import (
 	"github.com/uber/kraken/lib/backend"
 	"github.com/uber/kraken/lib/backend/backenderrors"
 	"github.com/uber/kraken/lib/persistedretry"
+	"github.com/uber/kraken/lib/persistedretry/tagreplication"
 	"github.com/uber/kraken/lib/persistedretry/writeback"
 	"github.com/uber/kraken/lib/store"
 	"github.com/uber/kraken/localdb"
@@ -72,6 +74,15 @@ func c32DigestTok(s string) string {
 		}
 	}
 	return "d?"
+}
+
+func c32DepTok(d core.Digest) string {
+	for i, x := range c32DigestTab[c32Digests:] {
+		if x == d {
+			return "x" + strconv.Itoa(i)
+		}
+	}
+	return "x?"
 }
 
 func c32Idx(tok, prefix string, n int) (int, bool) {
@@ -158,6 +169,7 @@ type c32Origin struct {
 	mu      sync.Mutex
 	answers map[string]string // dependency digest hex -> ok | nf | err
 	asked   []string
+	askedD  []string // the dependencies asked about (x<i>)
 }
 
 func (o *c32Origin) Stat(namespace string, d core.Digest) (*core.BlobInfo, error) {
@@ -165,6 +177,7 @@ func (o *c32Origin) Stat(namespace string, d core.Digest) (*core.BlobInfo, error
 	defer o.mu.Unlock()
 	a := o.answers[d.Hex()]
 	o.asked = append(o.asked, a)
+	o.askedD = append(o.askedD, c32DepTok(d))
 	switch a {
 	case "ok":
 		return core.NewBlobInfo(1), nil
@@ -186,6 +199,46 @@ func (r *c32Deps) Resolve(tag string, d core.Digest) (core.DigestList, error) {
 	return r.deps, nil
 }
 
+// tag replication manager: records the tasks replicateTag adds (their execution is C33's subject)
+type c32ReplMgr struct {
+	mu    sync.Mutex
+	tasks []string
+}
+
+func (m *c32ReplMgr) Add(t persistedretry.Task) error {
+	m.mu.Lock()
+	defer m.mu.Unlock()
+	x, ok := t.(*tagreplication.Task)
+	if !ok {
+		m.tasks = append(m.tasks, "?")
+		return nil
+	}
+	var deps []string
+	for _, d := range x.Dependencies {
+		deps = append(deps, c32DepTok(d))
+	}
+	dl := strings.Join(deps, ".")
+	if dl == "" {
+		dl = "none"
+	}
+	m.tasks = append(m.tasks, fmt.Sprintf("%s:%s:%s:%s:%d", x.Tag, c32DigestTok(x.Digest.String()), dl, x.Destination, int64(x.Delay)))
+	return nil
+}
+func (m *c32ReplMgr) SyncExec(persistedretry.Task) error { return errors.New("not supported") }
+func (m *c32ReplMgr) Close()                             {}
+func (m *c32ReplMgr) Find(interface{}) ([]persistedretry.Task, error) {
+	return nil, errors.New("not supported")
+}
+
+// remote build-indexes: ra replicates every tag, rb only t1
+var c32Remotes = func() tagreplication.Remotes {
+	r, err := tagreplication.RemotesConfig{"ra": {".*"}, "rb": {"^t1$"}}.Build()
+	if err != nil {
+		panic(err)
+	}
+	return r
+}()
+
 type c32NoNeighbors struct{}
 
 func (c32NoNeighbors) Resolve() stringset.Set { return stringset.New() }
@@ -199,7 +252,9 @@ type c32Sess struct {
 	backend *c32Backend
 	origin  *c32Origin
 	deps    *c32Deps
+	repl    *c32ReplMgr
 	hdb     *sqlx.DB
+	addr    string
 
 	fs     *store.SimpleStore
 	db     *sqlx.DB
@@ -252,8 +307,9 @@ func (s *c32Sess) open() error {
 	gm := verifretry.NewGateManager(inner, s.gex, c32TaskKey, func(interface{}) string { return "" })
 	ts := tagstore.New(tagstore.Config{WriteThrough: s.wt}, fs, bm, gm)
 	srv := tagserver.New(tagserver.Config{}, tally.NoopScope, bm, "local-origin", s.origin, c32NoNeighbors{}, ts,
-		nil, gm, tagclient.NewProvider(nil), s.deps, noop.NewTracerProvider().Tracer("verif"))
+		c32Remotes, s.repl, tagclient.NewProvider(nil), s.deps, noop.NewTracerProvider().Tracer("verif"))
 	addr, stop := testutil.StartServer(srv.Handler())
+	s.addr = addr
 	s.fs, s.db, s.inner, s.stop = fs, db, inner, stop
 	s.client = tagclient.NewSingleClient(addr, nil)
 	s.started, s.expect = map[string]bool{}, 0
@@ -357,7 +413,8 @@ func (s *c32Sess) noteAdds() {
 
 func (s *c32Sess) do(op []string) []string {
 	switch {
-	case op[1] == "put" && len(op) == 5 && strings.HasPrefix(op[4], "deps="):
+	case op[1] == "put" && (len(op) == 5 || len(op) == 6 && op[5] == "rep=1") && strings.HasPrefix(op[4], "deps="):
+		rep := len(op) == 6
 		t, ok1 := c32Idx(op[2], "t", c32Tags)
 		d, ok2 := c32Idx(op[3], "d", c32Digests)
 		answers := verifh.Unlist(op[4][5:])
@@ -378,18 +435,60 @@ func (s *c32Sess) do(op []string) []string {
 		s.deps.deps = deps
 		s.deps.mu.Unlock()
 		s.origin.mu.Lock()
-		s.origin.answers, s.origin.asked = amap, nil
+		s.origin.answers, s.origin.asked, s.origin.askedD = amap, nil, nil
 		s.origin.mu.Unlock()
-		err := s.client.Put("t"+strconv.Itoa(t), c32DigestTab[d])
+		s.repl.mu.Lock()
+		s.repl.tasks = nil
+		s.repl.mu.Unlock()
+		var err error
+		if rep {
+			err = s.client.PutAndReplicate("t"+strconv.Itoa(t), c32DigestTab[d])
+		} else {
+			err = s.client.Put("t"+strconv.Itoa(t), c32DigestTab[d])
+		}
 		s.noteAdds()
 		s.settle()
 		s.origin.mu.Lock()
 		asked := len(s.origin.asked)
+		chk := verifh.List(s.origin.askedD)
 		s.origin.mu.Unlock()
+		res := []string{"ok", "asked=" + strconv.Itoa(asked)}
 		if err != nil {
-			return []string{"err", "asked=" + strconv.Itoa(asked)}
+			res[0] = "err"
 		}
-		return []string{"ok", "asked=" + strconv.Itoa(asked)}
+		if rep {
+			s.repl.mu.Lock()
+			res = append(res, "chk="+chk, "rt="+verifh.SortedList(s.repl.tasks))
+			s.repl.mu.Unlock()
+		}
+		return res
+	case op[1] == "dupput" && len(op) == 5 && strings.HasPrefix(op[4], "delay="):
+		// what a neighbour sends after it acknowledged a PUT (duplicatePutTagHandler): no dependency
+		// check, write-back delayed by <delay> hours.  Sent without the client's retry option.
+		t, ok1 := c32Idx(op[2], "t", c32Tags)
+		d, ok2 := c32Idx(op[3], "d", c32Digests)
+		h, err := strconv.Atoi(op[4][6:])
+		if !ok1 || !ok2 || err != nil || h < 0 || h > 2 {
+			return nil
+		}
+		body, _ := json.Marshal(tagclient.DuplicatePutRequest{Delay: time.Duration(h) * time.Hour})
+		_, err = httputil.Put(fmt.Sprintf("http://%s/internal/duplicate/tags/t%d/digest/%s", s.addr, t, c32DigestTab[d].String()),
+			httputil.SendBody(bytes.NewReader(body)), httputil.SendTimeout(verifretry.Timeout))
+		s.noteAdds()
+		s.settle()
+		if err != nil {
+			return []string{"err"}
+		}
+		return []string{"ok"}
+	case op[1] == "adv" && len(op) == 2:
+		// three hours pass: every stored task's timestamps move back
+		for _, col := range []string{"created_at", "last_attempt"} {
+			if _, err := s.hdb.Exec("UPDATE writeback_task SET " + col + " = datetime(" + col + ", '-3 hours')"); err != nil {
+				s.fail("harness-sql", verifh.Str(err.Error()))
+				return []string{"err"}
+			}
+		}
+		return []string{"ok"}
 	case op[1] == "get" && len(op) == 3:
 		t, ok := c32Idx(op[2], "t", c32Tags)
 		if !ok {
@@ -495,6 +594,7 @@ func (s *c32Sess) complete() {
 		return
 	}
 	s.step([]string{"op", "fail", "0"})
+	s.step([]string{"op", "adv"})
 	for round := 0; round < 6 && !s.broken; round++ {
 		var run []string
 		for k := range s.started {
@@ -540,7 +640,7 @@ func c32Run(base string, tr *verifh.T, c verifh.Case) {
 		}
 	}
 	s := &c32Sess{tr: tr, dir: dir, wt: wt, backend: &c32Backend{tags: map[string][]byte{}},
-		origin: &c32Origin{answers: map[string]string{}}, deps: &c32Deps{}}
+		origin: &c32Origin{answers: map[string]string{}}, deps: &c32Deps{}, repl: &c32ReplMgr{}}
 	tr.Cfg("wt=" + verifh.Bool(wt))
 	defer tr.End()
 	if err := s.open(); err != nil {
@@ -610,6 +710,13 @@ func TestVerif_C32(t *testing.T) {
 			tr.Count("dependency_cases", 1)
 		}
 	}
+	// (a') the same with replicate=true: the replication tasks carry the checked dependencies
+	for i, dl := range depLists {
+		wt := []string{"wt=0", "wt=1"}[i%2]
+		tg := []string{"t0", "t1"}[(i/2)%2]
+		c32Run(base, tr, verifh.Case{Cfg: []string{wt}, Ops: [][]string{{"op", "put", tg, "d0", "deps=" + dl, "rep=1"}, {"op", "get", tg}}})
+		tr.Count("replicate_dependency_cases", 1)
+	}
 	// (b) bounded-exhaustive histories over 2 tags x 2 digests, both modes
 	alpha := [][]string{{"op", "poll"}, {"op", "restart"}, {"op", "fail", "1"}, {"op", "fail", "3"}, {"op", "fail", "0"}}
 	for _, tg := range []string{"t0", "t1"} {
@@ -618,7 +725,8 @@ func TestVerif_C32(t *testing.T) {
 			alpha = append(alpha, []string{"op", "put", tg, d, "deps=ok"})
 		}
 	}
-	alpha = append(alpha, []string{"op", "put", "t0", "d2", "deps=ok,nf"})
+	alpha = append(alpha, []string{"op", "put", "t0", "d2", "deps=ok,nf"}, []string{"op", "put", "t1", "d0", "deps=ok,ok", "rep=1"},
+		[]string{"op", "dupput", "t0", "d1", "delay=1"}, []string{"op", "dupput", "t1", "d0", "delay=0"}, []string{"op", "adv"})
 	var rec func(cfg string, prefix [][]string, d int)
 	rec = func(cfg string, prefix [][]string, d int) {
 		if d == 0 {
@@ -655,6 +763,14 @@ func TestVerif_C32(t *testing.T) {
 			tg := "t" + strconv.Itoa(r.Intn(c32Tags))
 			var o []string
 			switch x := r.Intn(100); {
+			case x < 6:
+				dg := r.Intn(c32Digests)
+				if single {
+					dg = int(tg[1] - '0')
+				}
+				o = []string{"op", "dupput", tg, "d" + strconv.Itoa(dg), "delay=" + strconv.Itoa(r.Intn(3))}
+			case x < 9:
+				o = []string{"op", "adv"}
 			case x < 40:
 				var deps []string
 				for k := r.Intn(4); k > 0; k-- {
@@ -665,6 +781,9 @@ func TestVerif_C32(t *testing.T) {
 					dg = int(tg[1] - '0')
 				}
 				o = []string{"op", "put", tg, "d" + strconv.Itoa(dg), "deps=" + verifh.List(deps)}
+				if r.Chance(1, 4) {
+					o = append(o, "rep=1")
+				}
 			case x < 58:
 				o = []string{"op", "get", tg}
 			case x < 74:
